@@ -72,7 +72,9 @@ pub enum Family {
     GlobalsGraph { depth: u32, fan: u32, globals: u32, helpers: u32 },
     /// Other dimensions along which a shader can be "large": 0 array nesting depth, 1 identifier
     /// length, 2 number of vertex attributes, 3 number of constants and overrides, 4 kilobytes of
-    /// comments, 5 block nesting depth inside one function, 6 switch cases / loops with calls.
+    /// comments, 5 block nesting depth inside one function, 6 switch cases / loops with calls,
+    /// 7 let-bound expressions each used twice by the next (a DAG with 2^n paths), 8 call results as
+    /// call arguments nested n deep, 9 one expression of n terms that are calls.
     Shapes { shape: u8, n: u32 },
     /// Programs that are REJECTED, at size: 0 hundreds of bindings but no group 0, 1 hundreds of
     /// bindings and one duplicate at the very end, 2 a large valid program with a syntax error in
@@ -104,7 +106,10 @@ impl Family {
             Family::Shapes { shape: 3, .. } => "many_consts_and_overrides",
             Family::Shapes { shape: 4, .. } => "big_comments",
             Family::Shapes { shape: 5, .. } => "block_nesting",
-            Family::Shapes { .. } => "switch_cases_and_loops",
+            Family::Shapes { shape: 6, .. } => "switch_cases_and_loops",
+            Family::Shapes { shape: 7, .. } => "expression_dag",
+            Family::Shapes { shape: 8, .. } => "nested_call_arguments",
+            Family::Shapes { .. } => "long_expression_chain",
             Family::GlobalsGraph { .. } => "globals_x_call_graph",
             Family::Chain { pure_helpers: true, .. } => "chain_pure",
             Family::Diamond { pure_helpers: true, .. } => "diamond_pure",
@@ -543,7 +548,7 @@ pub fn source(family: &Family) -> String {
         }
         Family::Shapes { shape, n } => {
             let n = (*n).max(1);
-            match shape % 7 {
+            match shape % 10 {
                 0 => {
                     let depth = n.min(24);
                     let mut ty = "f32".to_string();
@@ -598,6 +603,45 @@ pub fn source(family: &Family) -> String {
                     }
                     let _ = writeln!(out, "    return r;\n}}");
                     let _ = writeln!(out, "@compute @workgroup_size(1)\nfn cs_main() {{\n    acc_buf[0] = nested(params.x);\n}}");
+                }
+                7 => {
+                    // let-bound values each used twice by the next one: n expressions, 2^n paths
+                    let depth = n.min(64);
+                    out.push_str(GLOBALS);
+                    let _ = writeln!(out, "fn dag_helper(x: f32) -> f32 {{\n    return x * 0.5 + acc_buf[1];\n}}");
+                    let _ = writeln!(out, "fn dag(x: f32) -> f32 {{\n    let e0 = dag_helper(x);");
+                    for level in 1..=depth {
+                        let p = level - 1;
+                        match level % 3 {
+                            0 => { let _ = writeln!(out, "    let e{level} = e{p} * 0.5 + e{p} * 0.25;"); }
+                            1 => { let _ = writeln!(out, "    let e{level} = select(e{p}, -e{p}, e{p} > 1.0);"); }
+                            _ => { let _ = writeln!(out, "    let e{level} = min(e{p}, 4.0) + dag_helper(e{p});"); }
+                        }
+                    }
+                    let _ = writeln!(out, "    return e{depth};\n}}");
+                    let _ = writeln!(out, "@compute @workgroup_size(1)\nfn cs_main() {{\n    acc_buf[0] = dag(params.x) + dag(params.y);\n}}");
+                }
+                8 => {
+                    // f(g(f(g(...x)))) : call results as call arguments
+                    let depth = n.min(48);
+                    out.push_str(GLOBALS);
+                    let _ = writeln!(out, "fn na(x: f32) -> f32 {{\n    return x + acc_buf[1];\n}}");
+                    let _ = writeln!(out, "fn nb(x: f32, y: f32) -> f32 {{\n    return x * y + params.x;\n}}");
+                    let mut e = "params.y".to_string();
+                    for level in 0..depth {
+                        e = if level % 2 == 0 { format!("na({e})") } else { format!("nb({e}, 0.5)") };
+                    }
+                    let _ = writeln!(out, "@compute @workgroup_size(1)\nfn cs_main() {{\n    acc_buf[0] = {e};\n}}");
+                }
+                9 => {
+                    // one expression with n terms, each a call
+                    out.push_str(GLOBALS);
+                    let _ = writeln!(out, "fn term(x: f32) -> f32 {{\n    return x + acc_buf[3];\n}}");
+                    let mut e = "params.x".to_string();
+                    for t in 0..n.min(400) {
+                        let _ = write!(e, " + term({t}.0)");
+                    }
+                    let _ = writeln!(out, "@fragment\nfn fs_main() -> @location(0) vec4<f32> {{\n    let v = {e};\n    return vec4<f32>(v);\n}}");
                 }
                 _ => {
                     out.push_str(GLOBALS);
@@ -1032,6 +1076,9 @@ pub fn systematic_families() -> Vec<Family> {
         (4, &[10, 500, 3000]),
         (5, &[4, 30, 60]),
         (6, &[8, 100, 500]),
+        (7, &[4, 24, 64]),
+        (8, &[4, 24, 48]),
+        (9, &[10, 120, 400]),
     ] {
         for n in sizes {
             v.push(Family::Shapes { shape, n: *n });
@@ -1073,8 +1120,8 @@ pub fn random_family(rng: &mut Rng) -> Family {
             helpers: rng.range(0, 150) as u32,
         },
         4 if rng.chance(300) => {
-            let shape = rng.below(7) as u8;
-            let max = [24, 4000, 400, 600, 3000, 60, 500][shape as usize];
+            let shape = rng.below(10) as u8;
+            let max = [24, 4000, 400, 600, 3000, 60, 500, 64, 48, 400][shape as usize];
             Family::Shapes {
                 shape,
                 n: rng.range(1, max) as u32,
